@@ -1113,6 +1113,36 @@ pub fn c08(cfg: &Config, tr: &Trace, an: &Analysis, out: &mut Vec<Violation>) {
 // ------------------------------------------------------------------------ C09
 
 pub fn c09(cfg: &Config, tr: &Trace, an: &Analysis, out: &mut Vec<Violation>) {
+    // a panic that escapes the run takes the after hooks of every attempt in flight with it
+    if cfg.after && tr.anomalies.iter().any(|a| matches!(a, Anomaly::EscapedPanic(_))) {
+        for sc in &an.scens {
+            // the events of the aborting poll are lost with it: count begun attempts by
+            // their first user code as well
+            let bkey = format!("before {}", sc.info.name);
+            let befores = tr
+                .log
+                .iter()
+                .filter(|l| matches!(&l.kind, LogKind::Enter { key: k, .. } if *k == bkey))
+                .count();
+            let started = sc.attempts.iter().filter(|a| a.started.is_some()).count().max(befores);
+            let key = format!("after {}", sc.info.name);
+            let afters = tr
+                .log
+                .iter()
+                .filter(|l| matches!(&l.kind, LogKind::Enter { key: k, .. } if *k == key))
+                .count();
+            if afters < started {
+                out.push(v(
+                    "C09",
+                    "after-hook-missing",
+                    format!(
+                        "scenario {}: {started} attempts started but the after hook ran {afters} times (the run was aborted by an escaped panic)",
+                        sc.info.name
+                    ),
+                ));
+            }
+        }
+    }
     if aborted(tr) {
         return;
     }
